@@ -1,6 +1,7 @@
 """C13 — world switching delivers in/out events to the worlds that run (spec/Loop.tla)."""
 from .. import common
 from . import loop_common as lc
+from . import game_common as gm
 
 OWN = {'ret', 'log', 'loop', 'muted'}
 SIG_D16 = ('switch(target, clear_next=True) or switch(<current handle>, clear_current=True): on_switch_in is queued on the '
@@ -30,6 +31,10 @@ def run(res):
     Ks = lc.consts(MaxFrames=2, Sites=sites, Incs={1}, Reqs={'nop', 'switch', 'raise'})
     lc.check_and_replay(res, 'c13_all_sites', Ks, lc.INV, lc.PROPS_C13, own=OWN, walks=0)
     lc.simulate_and_replay(res, 'c13_simulated', 1500 if th else 250, 30, own=OWN)
+    # composed end to end (spec/Game.tla): worlds made of real processors and a sleeping coroutine; only the current
+    # instance runs, a left world is frozen, a cleared handle yields a fresh instance whose coroutine starts over
+    gm.check_and_replay(res, 'c13_game', gm.consts(MaxFrames=4 if th else 3, Incs={0, 1, 2} if th else {1, 2}),
+                        own={'cur', 'cached', 'runs', 'iterations', 'exc'}, walks=2000 if th else 300)
     n = sum(c.get('known_D16', 0) for c in res.cov.get('replay', {}).values())
     if n:
         listed = [f for f in common.load_findings().get('findings', []) if f.get('property') == 'C13' and f.get('id') == 'D16']
